@@ -117,3 +117,24 @@ Proof.
   - split; vm_compute; reflexivity.
 Qed.
 Print Assumptions C16_add_ext_path_sum_needs_StartsOk_refuted.
+
+(* Duration / first / last.  Extended-trapezoid path: the result's first (last) value is the sum of
+   the input renderings at the earliest (latest) corner time of all inputs — i.e. the sum of the
+   firsts (lasts) of the inputs that start (end) there, the others being 0 there — and its duration
+   is that latest corner time (the longest input duration). *)
+Theorem C16_add_first_last_duration_ext : forall s mg ms grads g,
+  add_gradients s mg ms grads = OK (P_ext, g) -> ExtInputsOk s grads ->
+  g_first g == sum_eval (map to_pwl grads) (hd 0 (T0 grads)) /\
+  g_last g == sum_eval (map to_pwl grads) (last (T0 grads) 0) /\
+  g_dur g == last (T0 grads) 0.
+Proof. exact add_ext_first_last_duration. Qed.
+Print Assumptions C16_add_first_last_duration_ext.
+
+(* Equal-timing path: every input has the duration of the result (so it is the maximum), and
+   first = last = 0 for the result and for every input. *)
+Theorem C16_add_duration_first_last_trap : forall s mg ms grads g,
+  add_gradients s mg ms grads = OK (P_trap, g) -> (forall x, In x grads -> WF x) ->
+  g_first g = 0 /\ g_last g = 0 /\
+  forall x, In x grads -> g_dur x == g_dur g /\ g_first x = 0 /\ g_last x = 0.
+Proof. exact add_trap_duration_first_last. Qed.
+Print Assumptions C16_add_duration_first_last_trap.
